@@ -1,5 +1,6 @@
 (* Corr/C39.v -- correspondence glue for C39.  A case is a table of flows and a list of events,
    each with what the real Save addon showed after it: whether options.update raised OptionsError,
+   whether an addon error (the AssertionError of `assert self.stream`) was logged,
    whether self.stream is set, the ordinals in self.active_flows (sorted) and the record sequence
    (flow ordinals) of the two stream files as read back by io.FlowReader (None = no such file).
    check_case replays the events through Model.Save.step, applies the file operations it returns
@@ -9,13 +10,13 @@ From MV Require Import Base.Bytes Model.SavePrelude Model.Save.
 Import ListNotations.
 Open Scope N_scope.
 
-Inductive obs := Ob (err opened : bool) (act : list N) (f0 f1 : option (list N)).
+Inductive obs := Ob (err alog opened : bool) (act : list N) (f0 f1 : option (list N)).
 Inductive case := Case (infos : list finfo) (steps : list (event * obs)).
 
-Definition obs_ok (s : st) (f : fs) (er : bool) (o : obs) : bool :=
+Definition obs_ok (s : st) (f : fs) (er : bool * bool) (o : obs) : bool :=
   match o with
-  | Ob e op act f0 f1 =>
-      Bool.eqb er e && Bool.eqb (is_some (stream s)) op
+  | Ob e al op act f0 f1 =>
+      Bool.eqb (fst er) e && Bool.eqb (snd er) al && Bool.eqb (is_some (stream s)) op
       && list_eqb N.eqb (sortN (active s)) act
       && option_eqb (list_eqb N.eqb) (fs_get f 0) f0
       && option_eqb (list_eqb N.eqb) (fs_get f 1) f1
